@@ -39,10 +39,18 @@ PROPS["C14"] = dict(engine="E15", level="fault_enumeration",
    level_text="Fault enumeration over failure kind x list index (x tree, period, latency variants) and watch-fault kind x position; oracles on Done/Error/Ready of the controller and every descendant.",
    design_ref="DESIGN.md 5.14", technique="runtime monitoring with fault injection: enumerated list/watch failures, lifecycle oracles (Done/Error/Ready of the whole subtree) in virtual time")
 
+PROPS["C13"] = dict(engine="E14", level="fault_enumeration",
+   rule="grid: period P in {1s,10s,1min} x list latency/P in {0,0.1,0.5,0.9,1,1.1,2,5} x result-consumption delay/P in {0,0.5,1,2} for the lister actor alone (the engine is the consumer and controls the delay exactly), and P x latency x {fast, slow filter.Accept} for the real controller with concurrent server mutations; 20 cycles of virtual time each, then shutdown at one (quick) or all (thorough) of 16 phase offsets of the list/tick cycle via stop channel / Close / context cancel. distinct = distinct grid point x close phase; non-trivial = at least one gap check and the count check were made.",
+   assumptions=["virtual time (testing/synctest): timestamps are exact, independent of machine load", "modern timer-channel semantics (asynctimerchan=0); the legacy mode cannot run inside synctest"],
+   floors={"any": {"gap-checks": 1000, "count-checks": 100, "lists": 2000}},
+   level_text="Enumeration of the (period, latency, consumption delay) grid and of shutdown phases, with exact virtual-time oracles: at most one list in flight, next list no earlier than 0.9P and (lister) no later than 1.1P after consumption, at least floor(T/cycle)-1 lists in T, shutdown completes at once and leaves no goroutine.",
+   design_ref="DESIGN.md 5.13", technique="runtime monitoring: timestamped List() calls at the fake client in synctest virtual time, cadence/concurrency/liveness-as-bounded-progress oracles, goroutine census")
+
 ENGINES = {
  "E1": dict(path="harness/engines/e01_cache_test.go", kind="direct drive of the cache actor vs reference model R-cache; exhaustive small universe + random walks"),
  "E4": dict(path="harness/engines/e04_converge_test.go", kind="real controller over fault-injecting fake API server; convergence oracles at virtual-time quiescence"),
  "E5": dict(path="harness/engines/e05_watch_test.go", kind="real controller, relists disabled, enumerated watch faults at every position"),
  "E15": dict(path="harness/engines/e15_failstop_test.go", kind="enumerated list failures at the k-th list with a subscriber tree attached; watch failures via E5 cases"),
+ "E14": dict(path="harness/engines/e14_cadence_test.go", kind="lister alone and real controller over the (period, latency, consumption) grid in virtual time"),
 }
 NA = {}
